@@ -1043,3 +1043,15 @@ Proof.
   intros H1 H2 E. pose proof (parse_str_inverse r1 H1) as P1. pose proof (parse_str_inverse r2 H2) as P2.
   rewrite E in P1. congruence.
 Qed.
+
+(** Unique readability: a text in the image of the formatter (over the domain) has
+    exactly one domain structure behind it, and it is the one the parser returns. *)
+Corollary formatted_text_unique s :
+  (exists rels, wf_rels rels = true /\ rel_str rels = s) ->
+  exists rels, (wf_rels rels = true /\ rel_str rels = s /\ parse_relations s = Ok (rels, 0%N))
+               /\ forall r', wf_rels r' = true -> rel_str r' = s -> r' = rels.
+Proof.
+  intros [rels [W E]]. exists rels. split.
+  - split; [exact W|]. split; [exact E|]. rewrite <- E. apply parse_str_inverse; exact W.
+  - intros r' W' E'. apply str_injective; [exact W'|exact W|]. rewrite E', E. reflexivity.
+Qed.
